@@ -66,7 +66,8 @@ def run(ctx):
     return parserprop.run_generic(
         ctx, "C08", "altered-verbatim-content", pred, verb_doc,
         ["list / block quote markup, ordered-list start and 'first closing backtick string of that length' are not theorems: carried by the pipeline correspondence (content, markup, info are compared) and the predicate on the implementation (partial)"],
-        "correspondence and predicate on: seed corpus, mutations, grammar, and verbatim leaves (fences with info, indented code with tabs, html blocks, thematic breaks of every shape, ATX/setext headings, code spans incl. NBSP padding and line ends, ordered markers, verbatim lines that start with blanks other than space / tab) under container prefixes with tabs at every column; x standard and random configurations")
+        "correspondence and predicate on: seed corpus, mutations, grammar, and verbatim leaves (fences with info, indented code with tabs, html blocks, thematic breaks of every shape, ATX/setext headings, code spans incl. NBSP padding and line ends, ordered markers, verbatim lines that start with blanks other than space / tab) under container prefixes with tabs at every column; x standard and random configurations",
+        fixed_extra=docs.line_pairs())
 
 
 def replay(body):
